@@ -28,17 +28,19 @@ def replay(r):
     start, end, bs = r["start"], r["end"], r["batch_size"]
     X = C.real_onehot(x, A).type(torch.float64)
     g = torch.Generator().manual_seed(7)
-    W1 = torch.randn(A * L, T_OUT, generator=g, dtype=torch.float64)
+    shapes = [tuple(s_) for s_ in r["shapes"]]
+    Ws = [torch.randn(A * L, int(np.prod(sh)), generator=g, dtype=torch.float64) for sh in shapes]
     args = [torch.randn(B, 2, generator=g, dtype=torch.float64) for _ in range(n_args)]
 
     class M(torch.nn.Module):
         def forward(self, X, *a):
-            y = torch.tanh(X.reshape(X.shape[0], -1) @ W1)
-            for k, ai in enumerate(a):
-                y = y + (k + 2) * torch.sin(ai.sum(dim=-1, keepdim=True) + torch.arange(T_OUT))
-            if kind == "tensor":
-                return y
-            return (y, 3 * y + 1)
+            outs = []
+            for t, sh in enumerate(shapes):
+                y = torch.tanh(X.reshape(X.shape[0], -1) @ Ws[t])
+                for k, ai in enumerate(a):
+                    y = y + (k + 2) * torch.sin(ai.sum(dim=-1, keepdim=True) + torch.arange(y.shape[1]))
+                outs.append(y.reshape(X.shape[0], *sh))
+            return outs[0] if kind == "tensor" else tuple(outs)
     m = M()
     e = L if end == -1 else end
     W = e - start
@@ -55,8 +57,8 @@ def replay(r):
         for t, (a0, ah) in enumerate(zip(outs0, outsh)):
             if not torch.allclose(a0, ref0[t]):
                 return True, "y0 differs from the model on the original sequences"
-            if tuple(ah.shape) != (B, A, W, T_OUT):
-                return True, "y_hat output %d has shape %s, expected %s" % (t, tuple(ah.shape), (B, A, W, T_OUT))
+            if tuple(ah.shape) != (B, A, W) + shapes[t]:
+                return True, "y_hat output %d has shape %s, expected %s" % (t, tuple(ah.shape), (B, A, W) + shapes[t])
             for n in range(B):
                 for c in range(A):
                     for p in range(start, e):
@@ -68,16 +70,17 @@ def replay(r):
                         if not torch.allclose(ah[n, c, p - start], ym[0], atol=1e-12):
                             return True, "y_hat[%d][n=%d, c=%d, p-start=%d] is not the model on sequence %d with position %d set to %d" % (t, n, c, p - start, n, p, c)
     if kind == "tensor":
-        for target in r.get("targets", [None, 0, 1, "slice"]):
-            tg = slice(0, 2) if target == "slice" else target
+        for target in r.get("targets", [None, 0]):
+            tg = slice(*target) if isinstance(target, list) else target
             for hyp in (False, True):
                 attr = saturation_mutagenesis(m, X, args=tuple(args) if n_args else None, target=tg, hypothetical=hyp, **kw)
-                d = yh - y0[:, None, None, :]
+                d = yh - y0[:, None, None]
                 d = d - d.mean(dim=1, keepdim=True)
-                if target in (0, 1):
-                    exp = d[..., target]
-                else:
-                    exp = d.mean(dim=-1)
+                if isinstance(target, int):
+                    d = d[:, :, :, target:target + 1]
+                elif isinstance(target, list):
+                    d = d[:, :, :, target[0]:target[1]]
+                exp = d.reshape(B, A, W, -1).mean(dim=-1)
                 if not hyp:
                     exp = exp * X[:, :, start:e]
                 if attr.shape != exp.shape or not torch.allclose(attr, exp, atol=1e-10):
@@ -106,14 +109,17 @@ def worker(cfg):
             start, end = core.Int("start"), core.Int("end")
             ctx.assume(s_and(start >= 0, start < end, end <= L))
             s_, e_ = start, end
-        model = UFModel(2 if kind == "tuple" else 1, "tuple" if kind == "tuple" else "tensor", out_dim=T_OUT)
+        shapes = [tuple(s_) for s_ in cfg["shapes"]]
+        model = UFModel(len(shapes), "tuple" if kind == "tuple" else "tensor", out_shapes=shapes)
 
         def rp(m):
             return dict(cfg, x=C.eval_chars(m, xc), start=core.model_value(m, start), end=core.model_value(m, end), batch_size=core.model_value(m, bs))
         kw = dict(start=start, end=end, batch_size=bs, device="cpu")
         try:
             y0, yh = ism.saturation_mutagenesis(model, X, args=tuple(args) if n_args else None, raw_outputs=True, **kw)
-        except (ValueError, RuntimeError, IndexError) as e:
+        except Exception as e:
+            if isinstance(e, core.Inconclusive):
+                raise
             m = ctx.model() if ctx.check() == z3.sat else None
             out["violations"].append(C.violation("ism:raises", "saturation_mutagenesis raised %s: %s" % (type(e).__name__, e), rp(m), replay))
             return "raised"
@@ -126,21 +132,22 @@ def worker(cfg):
         outsh = [yh] if kind == "tensor" else list(yh)
         cl = [len(outs0) == len(outsh)]
         for t, (a0, ah) in enumerate(zip(outs0, outsh)):
-            cl.append(a0.shape == (B, T_OUT))
-            cl.append(ah.shape == (B, A, Wn, T_OUT))
-            if a0.shape != (B, T_OUT) or ah.shape != (B, A, Wn, T_OUT):
+            shp = shapes[t]
+            cl.append(a0.shape == (B,) + shp)
+            cl.append(ah.shape == (B, A, Wn) + shp)
+            if a0.shape != (B,) + shp or ah.shape != (B, A, Wn) + shp:
                 continue
             for n in range(B):
                 argrows = [list(a.a[n].flat) for a in args]
-                for d in range(T_OUT):
-                    cl.append(a0.a[n, d] == expected_row(t, d, list(X.a[n].flat), argrows))
+                for d, cell in enumerate(np.ndindex(*shp)):
+                    cl.append(a0.a[(n,) + cell] == expected_row(t, d, list(X.a[n].flat), argrows))
                 for c in range(A):
                     for p in range(sv, ev):
                         row = X.a[n].copy()
                         row[:, p] = 0
                         row[c, p] = 1
-                        for d in range(T_OUT):
-                            cl.append(ah.a[n, c, p - sv, d] == expected_row(t, d, list(row.flat), argrows))
+                        for d, cell in enumerate(np.ndindex(*shp)):
+                            cl.append(ah.a[(n, c, p - sv) + cell] == expected_row(t, d, list(row.flat), argrows))
         m = ctx.prove(s_and(*cl), "y0 / y_hat indices")
         if m is not None:
             key = "ism:tuple-output-mutant-order" if kind == "tuple" else "ism:wrong-mutant-index"
@@ -151,27 +158,35 @@ def worker(cfg):
             if m is not None:
                 out["violations"].append(C.violation("ism:modifies-input", "input modified", rp(m), replay))
         if kind == "tensor":
+            shp = shapes[0]
             for target in cfg["targets"]:
-                tg = slice(0, 2) if target == "slice" else target
+                tg = slice(*target) if isinstance(target, list) else target
                 for hyp in (False, True):
-                    model2 = UFModel(1, "tensor", out_dim=T_OUT)
+                    model2 = UFModel(1, "tensor", out_shapes=shapes)
                     try:
                         attr = ism.saturation_mutagenesis(model2, X, args=tuple(args) if n_args else None, target=tg, hypothetical=hyp, **kw)
-                    except (ValueError, RuntimeError, IndexError) as e:
+                    except Exception as e:
+                        if isinstance(e, core.Inconclusive):
+                            raise
                         m = ctx.model() if ctx.check() == z3.sat else None
                         out["violations"].append(C.violation("ism:attribution-raises", "attribution call raised %s: %s" % (type(e).__name__, e), dict(rp(m), targets=[target]), replay))
                         continue
                     cl = [attr.shape == (B, A, Wn)]
                     if attr.shape == (B, A, Wn):
-                        sel = [target] if target in (0, 1) else list(range(T_OUT))
+                        if target is None:
+                            cells = list(np.ndindex(*shp))
+                        elif isinstance(target, int):
+                            cells = [c_ for c_ in np.ndindex(*shp) if c_[0] == target]
+                        else:
+                            cells = [c_ for c_ in np.ndindex(*shp) if target[0] <= c_[0] < target[1]]
                         for n in range(B):
                             for w in range(Wn):
                                 for c in range(A):
                                     tot = 0
-                                    for t in sel:
-                                        dcs = [yh.a[n, c2, w, t] - y0.a[n, t] for c2 in range(A)]
+                                    for cell in cells:
+                                        dcs = [yh.a[(n, c2, w) + cell] - y0.a[(n,) + cell] for c2 in range(A)]
                                         tot = tot + (dcs[c] - s_sum(dcs) * Fraction(1, A))
-                                    val = tot * Fraction(1, len(sel))
+                                    val = tot * Fraction(1, len(cells))
                                     if not hyp:
                                         val = val * X.a[n, c, sv + w]
                                     cl.append(attr.a[n, c, w] == val)
@@ -194,12 +209,22 @@ def configs(tier):
     else:
         shapes = [(2, 1, 3), (2, 2, 3), (3, 1, 4), (4, 1, 2), (4, 2, 4), (5, 1, 3), (2, 1, 6), (3, 2, 5)]
     for A, B, L in shapes:
+        rich = (A, B, L) in ((2, 1, 3), (3, 1, 4), (2, 2, 3))
         for kind in ("tensor", "tuple"):
             for n_args in (0, 1) if tier == "quick" else (0, 1, 2):
                 for window in ("sym", "default"):
                     if tier == "quick" and window == "default" and (n_args == 1 and kind == "tuple"):
                         continue
-                    cf.append(dict(A=A, B=B, L=L, kind=kind, n_args=n_args, window=window, targets=[None, 0, 1, "slice"] if (A, B, L) in ((2, 1, 3), (3, 1, 4), (2, 2, 3)) else [1]))
+                    if kind == "tuple":
+                        oshapes = [[2], [3]] if rich else [[2], [2]]          # outputs with different trailing shapes
+                        targets = []
+                    elif n_args == 0:
+                        oshapes = [[3]]
+                        targets = [None, 0, 2, [0, 2], [1, 3]] if rich else [1, [1, 3]]   # slices that are strict subsets
+                    else:
+                        oshapes = [[2, 2]]                                       # extra trailing output dimension
+                        targets = [None, 1, [0, 1]] if rich else [1]
+                    cf.append(dict(A=A, B=B, L=L, kind=kind, n_args=n_args, window=window, shapes=oshapes, targets=targets))
     return cf
 
 
@@ -209,12 +234,13 @@ def main(tier, seed):
     rep.functions = [ld.func_info("ism", f) for f in ("saturation_mutagenesis", "_edit_distance_one", "_attribution_score")] + [ld.func_info("predict", "predict")]
     cf = configs(tier)
     rep.bounds = {"A,B,L": sorted({(c["A"], c["B"], c["L"]) for c in cf}), "windows": "every 0 <= start < end <= L (symbolic, enumerated) and the default (0, -1)",
-                  "batch_size": "unbounded symbolic Int >= 1", "outputs": "tensor with trailing dim 2; tuple of 2 outputs", "targets": "None, int, slice"}
+                  "batch_size": "unbounded symbolic Int >= 1", "outputs": "tensor (n,3) and (n,2,2); tuple of outputs with different trailing shapes", "targets": "None, int, strict-subset slices"}
     rep.assumptions = ["model = uninterpreted row-wise function", "end = -1 with start > 0 and end < -1 are outside the claim (the code raises on reshape)",
                        "attribution formula checked for tensor-output models (the attribution path does not accept tuples)"]
     rep.absorb(harness.run_configs("checks.C09", "worker", cf))
     rep.witness_ok = rep.stats["returned"] > 0
-    for r in (dict(A=4, x=[[0, 1, 2, 3, 1]], kind="tensor", n_args=1, start=1, end=4, batch_size=3), dict(A=3, x=[[0, 1, 2], [2, 2, 1]], kind="tensor", n_args=0, start=0, end=-1, batch_size=50)):
+    for r in (dict(A=4, x=[[0, 1, 2, 3, 1]], kind="tensor", n_args=1, start=1, end=4, batch_size=3, shapes=[[2, 2]], targets=[None, 1, [0, 1]]),
+              dict(A=3, x=[[0, 1, 2], [2, 2, 1]], kind="tensor", n_args=0, start=0, end=-1, batch_size=50, shapes=[[3]], targets=[None, 0, [1, 3]])):
         replay(r)
         rep.validated += 1
     return harness.finish(rep)
